@@ -71,8 +71,12 @@ def sparsify(b, rng):
     ops = []
     for o in b["ops"]:
         o = dict(o)
+        if o["op"] in ("process", "reorg") and rng.random() < (0.4 if o["op"] == "reorg" else 0.15):
+            o["busy"] = True       # a query is in flight on the store's connection pool while the syncer writes
         if o["op"] == "process":
             o["num"] = r(o["num"])
+            if o.get("fault", {}).get("kind") == "stmt" and rng.random() < 0.15 and not any(e.get("t") == "v2" for e in o.get("evs", [])):
+                o["fault"] = dict(kind="kill", at=o["fault"]["at"])      # the process is killed inside that statement instead
         elif o["op"] == "reorg":
             if o.get("fault", {}).get("kind") == "stmt" and rng.random() < 0.3:
                 o["fault"] = dict(kind="commit", at=0)          # the reorg's COMMIT fails instead of one of its DELETEs
